@@ -2,4 +2,5 @@
 import Librfn.Props.C16
 import Librfn.Props.C17
 import Librfn.Props.C19
+import Librfn.Props.C05
 import Librfn.Props.C20
